@@ -9,7 +9,7 @@ LEVEL = 'exploration'
 RULE = ('session connect (with a signature), shell, stat, push of 3 WRTEs at maxdata 4096, pull; every bulk_write accepts all (default) / 1 / len-1 / half of the bytes and reports the count; '
         'all placements of <=k such deviations over the whole write sequence (stateless DFS), plus global per-call capacities {1, 7, 23, 24, 25, 4095}; both twins; oracle: whenever a call '
         'returns normally the device model has received byte-for-byte the stream of the unlimited run up to that point (a short write must be completed or reported) and at every moment the bytes received so far are a prefix of that stream (in order, without gaps, also when a call raises), results equal the '
-        'unlimited run; plus whole sessions over real loopback TCP with 4 KiB socket buffers and a slow reader (must equal the in-memory session); non-trivial = at least one short write; distinct = distinct (twin, capacity / choice list)')
+        'unlimited run; plus two threads sharing one device over a short-writing transport (one preemption x one short write x one expired bounded lock wait); plus whole sessions over real loopback TCP with 4 KiB socket buffers and a slow reader (must equal the in-memory session); non-trivial = at least one short write; distinct = distinct (twin, capacity / choice list)')
 ASSUMPTIONS = ['adbsim device model', 'the in-memory transport reports the accepted count exactly as socket.send / libusb bulkWrite do']
 CON = {'_sim': {'auth': {'first': 'token', 'sig': ['cnxn'], 'pub': 'cnxn'}}, '_keys': [0]}
 
@@ -118,6 +118,10 @@ def parts(tier):
     sc = [{'twin': t, 'faults': [[k, 'timeout']]} for t in twins for k in range(2, nref)]
     out.append(Part('short-write-then-timeout', sc, run_short, {'wcap': 1}, what='one transport timeout at every call index combined with every placement of one short write: whatever reached the '
                     'device must stay a prefix of the intended stream (no resend of a partly written message)', bound='%d fault positions x wcap deviations <= 1' % len(sc)))
+    from . import c06
+    out.append(Part('threads-short-writes', [{'scenario': k, 'wcap': True} for k in ('shell2|shell1', 'shell|push')], c06.run_threads, {'sched': 1, 'wcap': 1, 'dev-order': 0, 'lock-timeout': 1}, split=2,
+                    what='two threads on one device over a short-writing transport: every schedule with one preemption x one short write x one expired bounded lock wait; every message arrives whole '
+                         '(strict parser on the device side) and each call returns its solo result', bound='preemptions <= 1, short writes <= 1, expired lock waits <= 1', min_outcomes=1))
     out.append(Part('global-capacity', [{'twin': t, 'cap': c} for t in twins for c in (1, 7, 23, 24, 25, 4095)], run_short,
                     what='every bulk_write accepts at most c bytes', bound='6 capacities x 2 twins'))
     return out
